@@ -5,7 +5,7 @@
    channel semantics (false: Go < 1.23, a stale tick may stay in timer.C; true: Go >= 1.23), `ri` is
    RetryInterval, `q0`/`tok0` are the stored jobs and a possibly left-over token at Start.
    `nofault tr`: every queue call of the loop in tr succeeds without delay (faults: see C15.v). *)
-From Coq Require Import ZArith List Bool.
+From Coq Require Import ZArith List Bool String.
 Require Import QzLoop.Gen.Params QzLoop.LoopModel QzLoop.LoopProofs QzLoop.Restart QzLoop.RestartProofs.
 Import ListNotations.
 Open Scope Z_scope.
@@ -40,6 +40,16 @@ Theorem C05_token_enables_recompute : forall drain ri s, lpc s = PSelect -> tok 
   exists s1, step (code_cfg drain ri) s SelTok = Some s1 /\ lpc s1 = PSize /\ q s1 = q s.
 Proof. exact token_enables_recompute. Qed.
 Print Assumptions C05_token_enables_recompute.
+
+(* the label pair ApiMutate ; ApiToken is what the API methods do: every method that changes the queue
+   (mutating_api = ScheduleJob, DeleteJob, PauseJob, ResumeJob, Clear) ends a successful call with Reset()
+   exactly when the scheduler is started (tables regenerated from the source) *)
+Theorem C05_mutating_api_calls_send_token : forall m is_started outs calls,
+  In m mutating_api -> assoc m api_queue_calls = Some calls ->
+  (forall j, (j < List.length calls)%nat -> failed (nth j outs Ok) = false) ->
+  exists r, api_run m is_started outs = Some r /\ error r = None /\ performed r = calls /\ token r = is_started.
+Proof. exact mutating_api_calls_send_token. Qed.
+Print Assumptions C05_mutating_api_calls_send_token.
 
 (* non-vacuity: reachable parked states (far head, empty queue, paused head), API calls placed in the
    window and while parked, resume of a paused head, a due head, a stale tick *)
